@@ -197,7 +197,7 @@ def conc_job(job):
     ck = CK(job['hdr']); part = Part(); rnd = random.Random(job['seed']); d = os.path.join(job['scratch'], 'conc-%d' % job['seed']); shutil.rmtree(d, ignore_errors=True); os.makedirs(d)
     X = []
     try:
-        prepare(job['paths'], ck, d); nproc = job['nproc']
+        prepare(job['paths'], ck, d, job.get('backend', 'file')); nproc = job['nproc']
         X = [start(job['paths'], ck, job['cfg'], d, i) for i in range(nproc)]; S = [attach(x) for x in X]
         shared = [b'SH-%d' % i for i in range(2)]; bigrun = job['seed'] % 2 == 1
         for lab in shared: assert X[0].call('C_CreateObject', s=S[0], tmpl=obj_tmpl(X[0], lab, b'init', False, big=bigrun))['rv'] == 0
